@@ -11,6 +11,10 @@
 (* is a multiple of pi/2:  (-i)^(a^2 + b^2), a, b signed frequency         *)
 (* indices scaled per axis).  Everything is exact integer arithmetic.      *)
 (*                                                                         *)
+(* The pipeline is a state machine - Start, Transmit, ToSpectrum, Propagate,  *)
+(* Back, Detect - one array operation per step, for every scan position,   *)
+(* probe mode and slice in turn.                                           *)
+(*                                                                         *)
 (* Conventions being specified (they are what the library must agree       *)
 (* with): corner-centred probe and patch offsets in fftfreq order with     *)
 (* wrap-around on the object; transmit, then propagate between slices      *)
@@ -23,8 +27,12 @@ CONSTANTS RY, RX, NY, NX, NS, NM, Pos,   \* ROI, object grid, slices, modes, sca
           PropR, PropC,                   \* Fresnel exponent per axis: phase = (-i)^(PropR*a^2 + PropC*b^2)
           TwiddleBug                      \* negative control: wrong twiddle exponent
 
-VARIABLES par, pert, tab        \* tab: all patterns (integer numerators, corner-centred) of the current object
-vars == <<par, pert, tab>>
+VARIABLES par, pert,          \* object / probe family parameters, optional quarter-turn perturbation of one pixel
+          n, m, s, stage,     \* position, mode, slice being processed; stage of the pipeline
+          wave,               \* current array (function on ROI -> Gaussian integer)
+          acc,                \* pattern accumulator of the current position (corner-centred integer numerators)
+          pats                \* finished patterns
+vars == <<par, pert, n, m, s, stage, wave, acc, pats>>
 
 \* Gaussian integers <<re, im>>
 ZAdd(x, y) == <<x[1] + y[1], x[2] + y[2]>>
@@ -33,86 +41,96 @@ ZNorm2(x) == (x[1] * x[1]) + (x[2] * x[2])
 IPow(q) == CASE q % 4 = 0 -> <<1, 0>> [] q % 4 = 1 -> <<0, 1>> [] q % 4 = 2 -> <<-1, 0>> [] OTHER -> <<0, -1>>   \* i^q
 NegIPow(q) == IPow(3 * q)                                                                                         \* (-i)^q
 
-FFreq(i, n) == IF 2 * i < n + (n % 2) THEN i ELSE i - n
+FFreq(i, k) == IF 2 * i < k + (k % 2) THEN i ELSE i - k
 ROI == (0..(RY - 1)) \X (0..(RX - 1))
+Zero == [x \in ROI |-> 0]
 
 \* object phases in quarter turns, per slice; one pixel may be perturbed by a quarter turn
-Q(s, r, c) == (((par.a * r) + (par.b * c) + (par.d * r * c) + (s * (r + (2 * c)))) % 4)
-              + (IF pert.on /\ s = pert.s /\ r = pert.r /\ c = pert.c THEN 1 ELSE 0)
-\* probe modes: small Gaussian integers on disjoint supports (orthogonal, descending intensity)
-Probe(m, i, j) ==
-  IF m = 0 THEN (IF (i = RY - 1 /\ j = 0) \/ (i = 0 /\ j = RX - 1) THEN <<0, 0>>      \* support of mode 1
-                 ELSE IF (i + j) % 2 = 0 THEN <<2 + par.p, (i * j) % 2>> ELSE <<0, 1 + ((par.p + j) % 2)>>)
+Q(sl, r, c) == (((par.a * r) + (par.b * c) + (par.d * r * c) + (sl * (r + (2 * c)))) % 4)
+               + (IF pert.on /\ sl = pert.s /\ r = pert.r /\ c = pert.c THEN 1 ELSE 0)
+\* probe modes: small Gaussian integers; mode 1 lives on two pixels where mode 0 vanishes
+Probe0(md, i, j) ==
+  IF md = 0 THEN (IF (i = RY - 1 /\ j = 0) \/ (i = 0 /\ j = RX - 1) THEN <<0, 0>>
+                  ELSE IF (i + j) % 2 = 0 THEN <<2 + par.p, (i * j) % 2>> ELSE <<0, 1 + ((par.p + j) % 2)>>)
   ELSE (IF i = (RY - 1) /\ j = 0 THEN <<1, 1>> ELSE IF i = 0 /\ j = RX - 1 THEN <<1, -1>> ELSE <<0, 0>>)
-\* mode 1 must be orthogonal to mode 0: its support pixels carry values chosen below (checked by Orthogonal)
+\* optional perturbation of the probe: pixel (0, 0) of mode 0 turned by a quarter turn
+Probe(md, i, j) == IF pert.probe /\ md = 0 /\ i = 0 /\ j = 0 THEN ZMul(Probe0(md, i, j), <<0, 1>>) ELSE Probe0(md, i, j)
+Patch(pn, sl, i, j) == Q(sl, (Pos[pn][1] + FFreq(i, RY)) % NY, (Pos[pn][2] + FFreq(j, RX)) % NX)
 
-Patch(n, s, i, j) == Q(s, (Pos[n][1] + FFreq(i, RY)) % NY, (Pos[n][2] + FFreq(j, RX)) % NX)
-
-\* 2-D DFT of a ROI-sized Gaussian-integer array f (function on ROI); twiddle (-i)^(4 u x / R)
+\* 2-D DFT of a ROI-sized array f; twiddle (-i)^(4 u x / R)
 DFT(f, u, v) ==
-  LET ex(uu, x, n) == IF TwiddleBug THEN uu * x ELSE (4 \div n) * uu * x
+  LET ex(uu, x, k) == IF TwiddleBug THEN uu * x ELSE (4 \div k) * uu * x
       F[t \in 0..(RY * RX)] ==
         IF t = 0 THEN <<0, 0>>
-        ELSE LET x == (t - 1) \div RX  y == (t - 1) % RX IN
-             ZAdd(F[t - 1], ZMul(f[<<x, y>>], NegIPow(ex(u, x, RY) + ex(v, y, RX))))
+        ELSE ZAdd(F[t - 1], ZMul(f[<<(t - 1) \div RX, (t - 1) % RX>>], NegIPow(ex(u, (t - 1) \div RX, RY) + ex(v, (t - 1) % RX, RX))))
   IN F[RY * RX]
 \* inverse DFT times RY*RX (kept integral)
 IDFTn(g, x, y) ==
   LET F[t \in 0..(RY * RX)] ==
         IF t = 0 THEN <<0, 0>>
-        ELSE LET u == (t - 1) \div RX  v == (t - 1) % RX IN
-             ZAdd(F[t - 1], ZMul(g[<<u, v>>], IPow(((4 \div RY) * u * x) + ((4 \div RX) * v * y))))
+        ELSE ZAdd(F[t - 1], ZMul(g[<<(t - 1) \div RX, (t - 1) % RX>>], IPow(((4 \div RY) * ((t - 1) \div RX) * x) + ((4 \div RX) * ((t - 1) % RX) * y))))
   IN F[RY * RX]
-
-\* whole-array transforms (materialised as functions so that nothing is re-evaluated)
-DFTTab(f) == [k \in ROI |-> DFT(f, k[1], k[2])]
-IDFTnTab(g) == [x \in ROI |-> IDFTn(g, x[1], x[2])]
 PropPhase(k) == NegIPow((PropR * FFreq(k[1], RY) * FFreq(k[1], RY)) + (PropC * FFreq(k[2], RX) * FFreq(k[2], RX)))
 
-\* exit wave of mode m at position n, scaled by (RY*RX)^(NS-1) so that everything stays integral
-RECURSIVE Wave(_, _, _)
-Wave(n, m, s) ==      \* wave entering slice s (function on ROI)
-  IF s = 0 THEN [x \in ROI |-> Probe(m, x[1], x[2])]
-  ELSE LET prev == Wave(n, m, s - 1)
-           trans == [x \in ROI |-> ZMul(prev[x], IPow(Patch(n, s - 1, x[1], x[2])))]
-           spec0 == DFTTab(trans)
-           spec == [k \in ROI |-> ZMul(spec0[k], PropPhase(k))]
-       IN IDFTnTab(spec)
-Exit(n, m) == LET w == Wave(n, m, NS - 1) IN [x \in ROI |-> ZMul(w[x], IPow(Patch(n, NS - 1, x[1], x[2])))]
-\* integer numerator of the pattern: I[u, v] = Inten / ((RY*RX) * (RY*RX)^(2*(NS-1)))
-PatternTab(n) ==
-  LET spectra == [m \in 0..(NM - 1) |-> DFTTab(Exit(n, m))]
-  IN [k \in ROI |-> LET F[m \in 0..NM] == IF m = 0 THEN 0 ELSE F[m - 1] + ZNorm2(spectra[m - 1][k]) IN F[NM]]
-AllPatterns == [n \in DOMAIN Pos |-> PatternTab(n)]
-Scale == LET P[k \in 0..(2 * (NS - 1) + 1)] == IF k = 0 THEN 1 ELSE P[k - 1] * (RY * RX) IN P[2 * (NS - 1) + 1]
-
 Params == [a : {0, 1, 3}, b : {1, 2}, d : {0, 1}, p : {0, 1}]
-Init == /\ par \in Params /\ pert = [on |-> FALSE, s |-> 0, r |-> 0, c |-> 0] /\ tab = AllPatterns
-\* perturb one illuminated object pixel by a quarter turn
-Perturb == /\ ~pert.on
-           /\ \E s \in 0..(NS - 1), n \in DOMAIN Pos, x \in {<<0, 0>>, <<1, 0>>, <<0, 1>>} :
-                pert' = [on |-> TRUE, s |-> s, r |-> (Pos[n][1] + FFreq(x[1], RY)) % NY, c |-> (Pos[n][2] + FFreq(x[2], RX)) % NX]
-           /\ UNCHANGED par /\ tab' = AllPatterns'
-Next == Perturb
+NoPert == [on |-> FALSE, probe |-> FALSE, s |-> 0, r |-> 0, c |-> 0]
+\* perturbations: a quarter turn on one illuminated object pixel
+Perts == {NoPert, [NoPert EXCEPT !.probe = TRUE]} \cup {[on |-> TRUE, probe |-> FALSE, s |-> sl, r |-> (Pos[pn][1] + FFreq(x[1], RY)) % NY, c |-> (Pos[pn][2] + FFreq(x[2], RX)) % NX]
+                          : sl \in {NS - 1}, pn \in {1, Len(Pos)}, x \in {<<0, 0>>, <<1, 0>>}}
+
+Init == /\ par \in Params /\ pert \in Perts
+        /\ n = 1 /\ m = 0 /\ s = 0 /\ stage = "start" /\ wave = [x \in ROI |-> <<0, 0>>] /\ acc = Zero /\ pats = <<>>
+
+Start ==      /\ stage = "start"
+              /\ wave' = [x \in ROI |-> Probe(m, x[1], x[2])] /\ stage' = "probe"
+              /\ UNCHANGED <<par, pert, n, m, s, acc, pats>>
+Transmit ==   /\ stage \in {"probe", "propagated"}
+              /\ wave' = [x \in ROI |-> ZMul(wave[x], IPow(Patch(n, s, x[1], x[2])))] /\ stage' = "transmitted"
+              /\ UNCHANGED <<par, pert, n, m, s, acc, pats>>
+ToSpectrum == /\ stage = "transmitted" /\ s < NS - 1
+              /\ wave' = [k \in ROI |-> DFT(wave, k[1], k[2])] /\ stage' = "spectrum"
+              /\ UNCHANGED <<par, pert, n, m, s, acc, pats>>
+Propagate ==  /\ stage = "spectrum"
+              /\ wave' = [k \in ROI |-> ZMul(wave[k], PropPhase(k))] /\ stage' = "kernel"
+              /\ UNCHANGED <<par, pert, n, m, s, acc, pats>>
+Back ==       /\ stage = "kernel"
+              /\ wave' = [x \in ROI |-> IDFTn(wave, x[1], x[2])] /\ stage' = "propagated" /\ s' = s + 1
+              /\ UNCHANGED <<par, pert, n, m, acc, pats>>
+\* far field of the exit wave of the last slice, added incoherently to the pattern of position n
+Detect ==     /\ stage = "transmitted" /\ s = NS - 1
+              /\ LET newacc == [k \in ROI |-> acc[k] + ZNorm2(DFT(wave, k[1], k[2]))] IN
+                   IF m < NM - 1
+                   THEN acc' = newacc /\ m' = m + 1 /\ n' = n /\ pats' = pats /\ stage' = "start"
+                   ELSE /\ pats' = Append(pats, newacc) /\ acc' = Zero /\ m' = 0
+                        /\ IF n < Len(Pos) THEN n' = n + 1 /\ stage' = "start" ELSE n' = n /\ stage' = "done"
+              /\ s' = 0 /\ UNCHANGED <<par, pert, wave>>
+Next == Start \/ Transmit \/ ToSpectrum \/ Propagate \/ Back \/ Detect
 Spec == Init /\ [][Next]_vars
 
 ---------------------------------------------------------------------------
-\* self-checks of the transcription
-ProbeNorm(m) == LET F[t \in 0..(RY * RX)] == IF t = 0 THEN 0 ELSE F[t - 1] + ZNorm2(Probe(m, (t - 1) \div RX, (t - 1) % RX)) IN F[RY * RX]
-TotalProbe == LET F[m \in 0..NM] == IF m = 0 THEN 0 ELSE F[m - 1] + ProbeNorm(m - 1) IN F[NM]
-PatternSum(n) == LET F[t \in 0..(RY * RX)] == IF t = 0 THEN 0 ELSE F[t - 1] + tab[n][<<(t - 1) \div RX, (t - 1) % RX>>] IN F[RY * RX]
+\* integer numerators: I[u, v] = pats[n][u, v] / Scale,  Scale = (RY*RX)^(2*(NS-1)+1)
+Scale == LET P[k \in 0..(2 * (NS - 1) + 1)] == IF k = 0 THEN 1 ELSE P[k - 1] * (RY * RX) IN P[2 * (NS - 1) + 1]
+ProbeNorm(md) == LET F[t \in 0..(RY * RX)] == IF t = 0 THEN 0 ELSE F[t - 1] + ZNorm2(Probe(md, (t - 1) \div RX, (t - 1) % RX)) IN F[RY * RX]
+TotalProbe == LET F[md \in 0..NM] == IF md = 0 THEN 0 ELSE F[md - 1] + ProbeNorm(md - 1) IN F[NM]
+SumOf(f) == LET F[t \in 0..(RY * RX)] == IF t = 0 THEN 0 ELSE F[t - 1] + f[<<(t - 1) \div RX, (t - 1) % RX>>] IN F[RY * RX]
 \* Parseval + unit-amplitude object + unitary propagation: every pattern carries the probe's intensity
-IntensityConserved == \A n \in DOMAIN Pos : PatternSum(n) = Scale * TotalProbe
+IntensityConserved == \A i \in DOMAIN pats : SumOf(pats[i]) = Scale * TotalProbe
+\* the energy of the wave is conserved by every step (up to the known integer scale of DFT / IDFTn)
+WaveEnergy == LET e == SumOf([x \in ROI |-> ZNorm2(wave[x])])
+                  k == IF stage \in {"spectrum", "kernel"} THEN (2 * s) + 1 ELSE 2 * s
+                  P[j \in 0..k] == IF j = 0 THEN 1 ELSE P[j - 1] * (RY * RX)
+              IN stage \in {"probe", "transmitted", "spectrum", "kernel", "propagated"} => e = P[k] * ProbeNorm(m)
 Orthogonal == NM = 2 =>
    LET F[t \in 0..(RY * RX)] == IF t = 0 THEN <<0, 0>>
             ELSE LET i == (t - 1) \div RX  j == (t - 1) % RX IN
                  ZAdd(F[t - 1], ZMul(<<Probe(0, i, j)[1], -Probe(0, i, j)[2]>>, Probe(1, i, j)))
    IN F[RY * RX] = <<0, 0>> /\ ProbeNorm(1) < ProbeNorm(0)
 
-Emit == PrintT(<<"CASE", ToJson([ry |-> RY, rx |-> RX, ny |-> NY, nx |-> NX, ns |-> NS, nm |-> NM, scale |-> Scale,
-                                 pert |-> pert,
-                                 q |-> [s \in 1..NS |-> [r \in 1..NY |-> [c \in 1..NX |-> Q(s - 1, r - 1, c - 1)]]],
-                                 probe |-> [m \in 1..NM |-> [i \in 1..RY |-> [j \in 1..RX |-> Probe(m - 1, i - 1, j - 1)]]],
-                                 inten |-> [n \in DOMAIN Pos |-> [u \in 1..RY |-> [v \in 1..RX |->
-                                            tab[n][<<((u - 1) + (RY - (RY \div 2))) % RY, ((v - 1) + (RX - (RX \div 2))) % RX>>]]]]])>>)
+Emit == stage = "done" =>
+   PrintT(<<"CASE", ToJson([ry |-> RY, rx |-> RX, ny |-> NY, nx |-> NX, ns |-> NS, nm |-> NM, scale |-> Scale,
+                            pert |-> pert, par |-> par,
+                            q |-> [sl \in 1..NS |-> [r \in 1..NY |-> [c \in 1..NX |-> Q(sl - 1, r - 1, c - 1)]]],
+                            probe |-> [md \in 1..NM |-> [i \in 1..RY |-> [j \in 1..RX |-> Probe(md - 1, i - 1, j - 1)]]],
+                            inten |-> [i \in DOMAIN pats |-> [u \in 1..RY |-> [v \in 1..RX |->
+                                         pats[i][<<((u - 1) + (RY - (RY \div 2))) % RY, ((v - 1) + (RX - (RX \div 2))) % RX>>]]]]])>>)
 =============================================================================
